@@ -7,4 +7,5 @@ mkdir -p build evidence replays
 cp /repo/go.sum go/go.sum
 (cd lean && lake build)
 (cd go && go build -tags verif -o ../build/ ./cmd/... )
+(cd goref && go build -o ../build/ ./cmd/... )
 echo setup done
